@@ -698,6 +698,44 @@ Qed.
 (* reducer typing and value: the result is a FeArray iff every reduced axis is a tensor axis
    (read from `axis`, never from the result shape); it then keeps (Ne, nPg) and is the
    reduction of each point tensor separately *)
+Theorem reducer_typing_with (f : list V -> V) axis (a : arr) Ne nPg s :
+  shape a = Ne :: nPg :: s ->
+  match axis with
+  | None => exists r, fe_reduce_with V f None (OFe V a) = RPlain V r /\ shape r = []
+  | Some l =>
+      let axes := map (norm_axis (2 + length s)) l in
+      (Forall (fun x => 2 <= x) axes ->
+         exists r, fe_reduce_with V f (Some l) (OFe V a) = RFe V r /\
+                   shape r = Ne :: nPg :: remove_axes_from 2 axes s /\
+                   forall e p k, dat r (e :: p :: k) =
+                     f (map (fun rr => dat a (e :: p :: merge_idx 2 axes s k rr))
+                                  (indices (select_axes_from 2 axes s)))) /\
+      (~ Forall (fun x => 2 <= x) axes ->
+         exists r, fe_reduce_with V f (Some l) (OFe V a) = RPlain V r)
+  end.
+Proof.
+  intros Hs. destruct axis as [l|].
+  - cbn zeta. split.
+    + intros HF. unfold fe_reduce_with. cbn [oarr is_fe andb]. rewrite Hs. cbn [length].
+      change (S (S (length s))) with (2 + length s).
+      assert (K : keeps_fe_axes (Some l) (Z.of_nat (2 + length s)) = true).
+      { apply keeps_fe_axes_spec. rewrite Forall_map in HF. exact HF. }
+      rewrite K. unfold reduce_arr. cbn [C12_FeTensor.shape]. rewrite Hs.
+      rewrite (remove_axes_keeps_lead _ Ne nPg s HF). cbn [length Nat.leb].
+      eexists. split; [reflexivity|]. split; [reflexivity|].
+      intros e p k. cbn [C12_FeTensor.dat].
+      rewrite (select_axes_lead _ Ne nPg s HF). f_equal.
+      apply map_ext. intros rr. rewrite (merge_idx_lead _ Ne nPg s e p k rr HF). reflexivity.
+    + intros HF. unfold fe_reduce_with. cbn [oarr is_fe andb]. rewrite Hs. cbn [length].
+      change (S (S (length s))) with (2 + length s).
+      destruct (keeps_fe_axes (Some l) (Z.of_nat (2 + length s))) eqn:K.
+      * apply keeps_fe_axes_spec in K. exfalso. apply HF. rewrite Forall_map. exact K.
+      * eexists. reflexivity.
+  - unfold fe_reduce_with. cbn [oarr is_fe keeps_fe_axes andb]. eexists. split; [reflexivity|].
+    unfold reduce_arr, all_axes. cbn [C12_FeTensor.shape]. unfold remove_axes.
+    apply remove_all_axes. intros j Hj. apply memb_In, in_seq. lia.
+Qed.
+
 Theorem reducer_typing op axis (a : arr) Ne nPg s :
   shape a = Ne :: nPg :: s ->
   match axis with
@@ -713,28 +751,8 @@ Theorem reducer_typing op axis (a : arr) Ne nPg s :
       (~ Forall (fun x => 2 <= x) axes ->
          exists r, fe_reduce V vred op (Some l) (OFe V a) = RPlain V r)
   end.
-Proof.
-  intros Hs. destruct axis as [l|].
-  - cbn zeta. split.
-    + intros HF. unfold fe_reduce. cbn [oarr is_fe andb]. rewrite Hs. cbn [length].
-      change (S (S (length s))) with (2 + length s).
-      assert (K : keeps_fe_axes (Some l) (Z.of_nat (2 + length s)) = true).
-      { apply keeps_fe_axes_spec. rewrite Forall_map in HF. exact HF. }
-      rewrite K. unfold reduce_arr. cbn [C12_FeTensor.shape]. rewrite Hs.
-      rewrite (remove_axes_keeps_lead _ Ne nPg s HF). cbn [length Nat.leb].
-      eexists. split; [reflexivity|]. split; [reflexivity|].
-      intros e p k. cbn [C12_FeTensor.dat].
-      rewrite (select_axes_lead _ Ne nPg s HF). f_equal.
-      apply map_ext. intros rr. rewrite (merge_idx_lead _ Ne nPg s e p k rr HF). reflexivity.
-    + intros HF. unfold fe_reduce. cbn [oarr is_fe andb]. rewrite Hs. cbn [length].
-      change (S (S (length s))) with (2 + length s).
-      destruct (keeps_fe_axes (Some l) (Z.of_nat (2 + length s))) eqn:K.
-      * apply keeps_fe_axes_spec in K. exfalso. apply HF. rewrite Forall_map. exact K.
-      * eexists. reflexivity.
-  - unfold fe_reduce. cbn [oarr is_fe keeps_fe_axes andb]. eexists. split; [reflexivity|].
-    unfold reduce_arr, all_axes. cbn [C12_FeTensor.shape]. unfold remove_axes.
-    apply remove_all_axes. intros j Hj. apply memb_In, in_seq. lia.
-Qed.
+Proof. exact (reducer_typing_with (vred op) axis a Ne nPg s). Qed.
+
 
 (* FeArray.T reverses the tensor axes at each (e, p), for every rank (ranks 0 and 1 are their
    own reverse, rank 2 is the matrix transpose) *)
@@ -961,6 +979,135 @@ Proof.
   { apply andb_true_iff in B4. destruct B4 as [A1 A2]. apply Nat.eqb_eq in A1, A2.
     apply (fe_einsum2_type [0; 1] [1] [0] a Ne nPg s1 y s2 Hs Hy); simpl; lia. }
   exact (dot_type a Ne nPg s1 y s2 Hs Hy R1 R2).
+Qed.
+
+
+(* ==================================================================================== *)
+(* 10. TensorProd, Norm, Normalize                                                      *)
+(* ==================================================================================== *)
+Variable vhalf : V.
+Variable vsqrt : V -> V.
+
+(* what the four einsum literals of TensorProd denote on two plain tensors *)
+Lemma tp_vec_spec sA sB A B i j : length sA = 1 -> length sB = 1 ->
+  core_contract [mkCop V [0] sA A; mkCop V [1] sB B] [0; 1] [i; j] = vmul (A (clip sA [i])) (B (clip sB [j])).
+Proof. intros LA LB. dlen sA; dlen sB. reflexivity. Qed.
+
+Lemma tp_mat_spec sA sB A B i j k l : length sA = 2 -> length sB = 2 ->
+  core_contract [mkCop V [0; 1] sA A; mkCop V [2; 3] sB B] [0; 1; 2; 3] [i; j; k; l]
+  = vmul (A (clip sA [i; j])) (B (clip sB [k; l])).
+Proof. intros LA LB. dlen sA; dlen sB. reflexivity. Qed.
+
+Lemma tp_sym1_spec sA sB A B i j k l : length sA = 2 -> length sB = 2 ->
+  core_contract [mkCop V [0; 2] sA A; mkCop V [1; 3] sB B] [0; 1; 2; 3] [i; j; k; l]
+  = vmul (A (clip sA [i; k])) (B (clip sB [j; l])).
+Proof. intros LA LB. dlen sA; dlen sB. reflexivity. Qed.
+
+Lemma tp_sym2_spec sA sB A B i j k l : length sA = 2 -> length sB = 2 ->
+  core_contract [mkCop V [0; 3] sA A; mkCop V [1; 2] sB B] [0; 1; 2; 3] [i; j; k; l]
+  = vmul (A (clip sA [i; l])) (B (clip sB [j; k])).
+Proof. intros LA LB. dlen sA; dlen sB. reflexivity. Qed.
+
+(* the matrix held by [a] at batch index kb (numpy broadcasting of size-1 batch axes) *)
+Definition mat_slice (a : arr) (kb c : list nat) : V :=
+  dat a (bidx (firstn (length (shape a) - 2) (shape a)) kb ++ c).
+
+Lemma bidx_valid s k : Forall2 lt k s -> bidx s k = k.
+Proof.
+  intros H. assert (L : length k = length s) by (induction H; simpl; congruence).
+  rewrite bidx_full by exact L. now apply clip_valid.
+Qed.
+
+(* TensorProd(A, B, symmetric=True) at every batch index (for fields: every (e, p)) is
+   1/2 (A_ik B_jl + A_il B_jk) of the two matrices held there -- A and B different *)
+Theorem tensorprod_sym_pointwise (a b p1 p2 s : arr) ba bb d1 d2 d3 d4 :
+  shape a = ba ++ [d1; d2] -> shape b = bb ++ [d3; d4] ->
+  einsum_l V vzero vone vadd vmul tp_sym1 a b = Some p1 ->
+  einsum_l V vzero vone vadd vmul tp_sym2 a b = Some p2 ->
+  ew2 V vadd p1 p2 = Some s -> shape p1 = shape p2 ->
+  forall kb i j k l, Forall2 lt (kb ++ [i; j; k; l]) (shape p1) ->
+    dat (ew1 V (fun v => vmul vhalf v) s) (kb ++ [i; j; k; l]) =
+    vmul vhalf
+      (vadd (vmul (mat_slice a kb (clip [d1; d2] [i; k])) (mat_slice b kb (clip [d3; d4] [j; l])))
+            (vmul (mat_slice a kb (clip [d1; d2] [i; l])) (mat_slice b kb (clip [d3; d4] [j; k])))).
+Proof.
+  intros Ha Hb E1 E2 Hs Heq kb i j k l Hv.
+  unfold ew1. cbn [C12_FeTensor.dat]. unfold ew2 in Hs.
+  destruct (np_bcast (shape p1) (shape p2)); [|discriminate]. inversion Hs; subst s; clear Hs.
+  cbn [C12_FeTensor.dat]. rewrite <- Heq, (bidx_valid _ _ Hv).
+  unfold einsum_l, tp_sym1, tp_sym2 in E1, E2.
+  rewrite (einsum_pointwise false _ _ p1 E1 kb [i; j; k; l]) by reflexivity.
+  rewrite (einsum_pointwise false _ _ p2 E2 kb [i; j; k; l]) by reflexivity.
+  cbn [map slice_at]. unfold core_of, batch_of. cbn [length].
+  rewrite Ha, Hb, !app_length. cbn [length]. rewrite !Nat.add_sub.
+  rewrite !skipn_app_exact, !firstn_app_exact by reflexivity.
+  rewrite tp_sym1_spec, tp_sym2_spec by reflexivity.
+  unfold mat_slice. rewrite Ha, Hb, !app_length. cbn [length]. rewrite !Nat.add_sub.
+  rewrite !firstn_app_exact by reflexivity. reflexivity.
+Qed.
+
+(* ... and this is what the function computes for two matrix fields *)
+Lemma fe_TensorProd_sym_unfold (a b : arr) :
+  orank V (OFe V a) = 2 -> orank V (OFe V b) = 2 ->
+  fe_TensorProd V vzero vone vadd vmul vhalf true None (OFe V a) (OFe V b) =
+  match einsum_l V vzero vone vadd vmul tp_sym1 a b, einsum_l V vzero vone vadd vmul tp_sym2 a b with
+  | Some p1, Some p2 =>
+      match ew2 V vadd p1 p2 with
+      | Some s => as_fe V (RPlain V (ew1 V (fun v => vmul vhalf v) s))
+      | None => RErr V 1
+      end
+  | _, _ => RErr V 1
+  end.
+Proof. intros R1 R2. unfold fe_TensorProd. rewrite R1, R2. reflexivity. Qed.
+
+(* non-symmetric and vector products, same style *)
+Theorem tensorprod_mat_pointwise (a b r : arr) ba bb d1 d2 d3 d4 :
+  shape a = ba ++ [d1; d2] -> shape b = bb ++ [d3; d4] ->
+  einsum_l V vzero vone vadd vmul tp_mat a b = Some r ->
+  forall kb i j k l,
+    dat r (kb ++ [i; j; k; l]) =
+    vmul (mat_slice a kb (clip [d1; d2] [i; j])) (mat_slice b kb (clip [d3; d4] [k; l])).
+Proof.
+  intros Ha Hb E kb i j k l. unfold einsum_l, tp_mat in E.
+  rewrite (einsum_pointwise false _ _ r E kb [i; j; k; l]) by reflexivity.
+  cbn [map slice_at]. unfold core_of, batch_of. cbn [length].
+  rewrite Ha, Hb, !app_length. cbn [length]. rewrite !Nat.add_sub.
+  rewrite !skipn_app_exact, !firstn_app_exact by reflexivity.
+  rewrite tp_mat_spec by reflexivity.
+  unfold mat_slice. rewrite Ha, Hb, !app_length. cbn [length]. rewrite !Nat.add_sub.
+  rewrite !firstn_app_exact by reflexivity. reflexivity.
+Qed.
+
+(* Norm: a reduction like any other -- FeArray iff the axis is a tensor axis, and then the
+   Euclidean length of a slice of the point tensor *)
+Theorem norm_typing l (a : arr) Ne nPg s :
+  shape a = Ne :: nPg :: s ->
+  let axes := map (norm_axis (2 + length s)) l in
+  (Forall (fun x => 2 <= x) axes ->
+     exists r, fe_Norm V vzero vadd vmul vsqrt (Some l) (OFe V a) = RFe V r /\
+               shape r = Ne :: nPg :: remove_axes_from 2 axes s /\
+               forall e p k, dat r (e :: p :: k) =
+                 norm_of V vzero vadd vmul vsqrt
+                   (map (fun rr => dat a (e :: p :: merge_idx 2 axes s k rr)) (indices (select_axes_from 2 axes s)))) /\
+  (~ Forall (fun x => 2 <= x) axes -> exists r, fe_Norm V vzero vadd vmul vsqrt (Some l) (OFe V a) = RPlain V r).
+Proof.
+  intros Hs. exact (reducer_typing_with (norm_of V vzero vadd vmul vsqrt) (Some l) a Ne nPg s Hs).
+Qed.
+
+(* Normalize along a tensor axis: every entry of the point tensor divided by the Euclidean
+   length of its own slice (1 for a zero slice); shape and type unchanged *)
+Theorem normalize_pointwise ax (a : arr) Ne nPg s j :
+  shape a = Ne :: nPg :: s -> norm_axis (2 + length s) ax = 2 + j ->
+  exists r, fe_Normalize V vzero vone vadd vmul vnonzero vbin vsqrt ax (OFe V a) = RFe V r /\
+            shape r = Ne :: nPg :: s /\
+            forall e p k, dat r (e :: p :: k) =
+              let n := norm_of V vzero vadd vmul vsqrt
+                         (map (fun i => dat a (e :: p :: set_nth j i k)) (seq 0 (nth j s 0))) in
+              vbin 3 (dat a (e :: p :: k)) (if vnonzero n then n else vone).
+Proof.
+  intros Hs Hj. unfold fe_Normalize. cbn [oarr]. rewrite Hs. cbn [length].
+  change (S (S (length s))) with (2 + length s). rewrite Hj.
+  eexists. split; [reflexivity|]. split; [reflexivity|]. intros e p k. reflexivity.
 Qed.
 
 End Values.
